@@ -189,8 +189,8 @@ impl Driver {
             calls: Rc::new(RefCell::new(Vec::new())),
             want_ui: false,
             want_rw: false,
-            budget_base: 20_000,
-            budget_per_char: 200,
+            budget_base: 200_000,
+            budget_per_char: 2_000,
             logger_off: false,
         }
     }
